@@ -375,6 +375,62 @@ def _d4(chk, fb):
     chk.floor("D4", "duplicate-name refusals in DataTable that search a name vector", m, 2)
 
 
+_NUM = re.compile(r'toString\(\(?(\w+)(?: ([+-]) (\d+))?\)+ \+ "_"')
+
+
+def _component_numbers(f, node, where):
+    """(first number, text) of every '<counter + c>_' name part built under `node`; None when the counter's start is unreadable"""
+    out = []
+    txt = render(node, local_inits(f))
+    for m in _NUM.finditer(txt):
+        var, sign, c = m.group(1), m.group(2), int(m.group(3) or 0)
+        off = -c if sign == "-" else c
+        start = None
+        x = f.enclosing(where, ("ForStmt",))
+        while x is not None and start is None:
+            ini = f.nodes.get(x.get("init")) if x.get("init") is not None else None
+            if ini is not None:
+                for d in walk(ini):
+                    if d["k"] == "DeclStmt":
+                        for dd in d["decls"]:
+                            if dd["name"] == var and dd.get("init") is not None:
+                                lit = strip(dd["init"])
+                                while lit is not None and lit["k"] in ("ImplicitCastExpr", "CXXFunctionalCastExpr", "CStyleCastExpr") and kids(lit):
+                                    lit = strip(kids(lit)[0])
+                                if lit is not None and lit["k"] == "IntegerLiteral":
+                                    start = lit["val"]
+            x = f.enclosing(x, ("ForStmt",))
+        out.append((None if start is None else start + off, m.group(0)))
+    return out
+
+
+def _d6(chk, fb):
+    """the arguments of the k-th nested distribution of a mixture are filed by the reader under '<k>_' names; the mixture
+    itself names the parameters of its k-th component '<k>_...' (vNestedPrefix_).  Both number from the same first value."""
+    own = []
+    for q in fb.q("bpp::MixtureOfDiscreteDistributions::MixtureOfDiscreteDistributions"):
+        for n in q.all_nodes():
+            if is_call(n) and n["callee"]["name"] == "push_back" and render(q.obj(n)) == "vNestedPrefix_":
+                own += [(q, n, b, t) for b, t in _component_numbers(q, q.args(n)[0], n)]
+    rd = fb.q1("bpp::BppODiscreteDistributionFormat::readDiscreteDistribution")
+    filed = []
+    for n in rd.all_nodes():
+        if is_call(n) and n.get("op") == "=" and "obj" in n and render(rd.obj(n)).startswith("unparsedArguments_["):
+            filed += [(rd, n, b, t) for b, t in _component_numbers(rd, rd.obj(n), n)]
+    chk.floor("D6", "numbered name parts (mixture constructor + reader)", min(len(own), 1) + min(len(filed), 1), 2)
+    bases = set(b for _, _, b, _ in own)
+    for f, n, b, t in filed:
+        if b is None or None in bases or len(bases) != 1:
+            chk.unknown("D6", f.key, "component-numbering", f.loc(n), "first number of '%s' or of the mixture's own prefixes not readable" % t)
+        elif b == list(bases)[0]:
+            chk.proved("D6", f.key, "component-numbering", f.loc(n), "nested arguments are filed from number %d on, as the mixture names its components" % b)
+        else:
+            chk.refuted("D6", f.key, "component-numbering", f.loc(n),
+                        "the reader files the arguments of the nested distributions under numbers starting at %d ('%s') while MixtureOfDiscreteDistributions names its components from %d on: "
+                        "the recorded arguments of component k carry the names of another component" % (b, t, list(bases)[0]),
+                        witness={"input": "Mixture(probas=..., dist1=Gamma(n=2,alpha=3), dist2=...): getUnparsedArguments() versus the parameter names of the built object"})
+
+
 def run(chk, fb, tier):
     chk.rule("D1", "getName() of every concrete family is dispatched by readDiscreteDistribution; every 'key=' the writer emits is looked up by the reader; every 'Family.param' key of the reader names a Parameter a constructor creates")
     chk.rule("D2", "splits_.push_back(E) is the last write of the iteration to the locals E reads; a token stored on a delimiter-found path has its split recorded before the loop continues")
@@ -384,6 +440,8 @@ def run(chk, fb, tier):
     _d2(chk, fb)
     _d3(chk, fb)
     _d4(chk, fb)
+    chk.rule("D6", "the reader files the arguments of a mixture's nested distributions under the same component numbers the mixture uses for its own parameter prefixes")
+    _d6(chk, fb)
     from . import argswap
     chk.rule("D5", "argument/parameter name agreement at forwarding calls in the anchored units (same-typed parameters such as the decimal separator and the exponent marker must not be swapped)")
     files = tuple(json.loads(l)["anchors"]["files"] for l in open(__import__("os").path.join(__import__("os").path.dirname(__import__("os").path.dirname(__file__)), "properties.jsonl")) if json.loads(l)["id"] == "C17")[0]
